@@ -137,7 +137,7 @@ func (a *An) checkSignPolarity() {
 		fld := a.MustField("dataMsg", "serializeUnsignedCache")
 		n := 0
 		for _, st := range a.DirectStoresTo(fld) {
-			if st.Parent() != du {
+			if !a.C.within(st, du) {
 				continue
 			}
 			n++
@@ -192,11 +192,47 @@ func (a *An) checkHMACStream(rule, key string, fn *ssa.Function, sum *ssa.Call, 
 	R.Check(strings.Join(got, " ‖ ") == strings.Join(want, " ‖ "), rule, key+"|stream", "MAC input is "+strings.Join(want, " ‖ "), a.C.InstrPos(sum), "MAC input is "+strings.Join(got, " ‖ "))
 }
 
+// instrDominates: x is executed before y on every path to y. Instructions of different functions are related only
+// through a new single-use helper (terms.go): y inside a helper of x's function is dominated by x when the helper's
+// call is; x inside a helper dominates y in the calling function when the call dominates y and x is on every path
+// through the helper.
 func instrDominates(x, y ssa.Instruction) bool {
+	if x.Parent() != y.Parent() {
+		if theCtx == nil {
+			return false
+		}
+		if cs := theCtx.soleCall(y.Parent()); cs != nil {
+			if cs == x {
+				return false
+			}
+			return instrDominates(x, cs)
+		}
+		if cs := theCtx.soleCall(x.Parent()); cs != nil {
+			if !instrDominates(cs, y) && ssa.Instruction(cs) != y {
+				return false
+			}
+			for _, b := range x.Parent().Blocks {
+				if r, ok := b.Instrs[len(b.Instrs)-1].(*ssa.Return); ok && len(b.Preds)+boolInt(b == x.Parent().Blocks[0]) > 0 {
+					if !instrDominates(x, r) {
+						return false
+					}
+				}
+			}
+			return true
+		}
+		return false
+	}
 	if x.Block() == y.Block() {
 		return instrIndex(x) < instrIndex(y)
 	}
 	return x.Block().Dominates(y.Block())
+}
+
+func boolInt(b bool) int {
+	if b {
+		return 1
+	}
+	return 0
 }
 
 // pickOurKeys / pickTheirKey: accepted ids are exactly current and current-1; zero rejected.
@@ -308,7 +344,7 @@ func (a *An) counterStoreGate(rule string, auth []string) {
 	if fld := a.MustField("keyPairCounter", "theirCounter"); fld != nil {
 		cnt := map[string]int{}
 		for _, st := range a.DirectStoresTo(fld) {
-			fn := a.C.Name(st.Parent())
+			fn := a.C.Name(a.C.owner(st.Parent()))
 			if strings.HasSuffix(fn, ".wipe") {
 				continue
 			}
@@ -363,7 +399,7 @@ func (a *An) unsignedCacheWriters(rule string) {
 		return
 	}
 	for _, st := range a.DirectStoresTo(fld) {
-		fn := a.C.Name(st.Parent())
+		fn := a.C.Name(a.C.owner(st.Parent()))
 		t := a.C.Term(st.Val)
 		switch {
 		case strings.Contains(fn, "deserialize"):
@@ -524,7 +560,7 @@ func (a *An) headerIsReceived(rule string) {
 			if argIdx >= len(args) {
 				continue
 			}
-			v := resolveLocal(args[argIdx])
+			v := a.C.resolveParam(resolveLocal(args[argIdx]))
 			R.Check(from(v, f), rule, fname+"|"+callee+"|header", what, a.C.InstrPos(c), "passes "+a.C.Term(args[argIdx]))
 		}
 	}
